@@ -1,0 +1,224 @@
+//go:build verif
+
+/*
+ * Licensed to the Apache Software Foundation (ASF) under one or more
+ * contributor license agreements.  See the NOTICE file distributed with
+ * this work for additional information regarding copyright ownership.
+ * The ASF licenses this file to You under the Apache License, Version 2.0
+ * (the "License"); you may not use this file except in compliance with
+ * the License.  You may obtain a copy of the License at
+ *
+ *     http://www.apache.org/licenses/LICENSE-2.0
+ *
+ * Unless required by applicable law or agreed to in writing, software
+ * distributed under the License is distributed on an "AS IS" BASIS,
+ * WITHOUT WARRANTIES OR CONDITIONS OF ANY KIND, either express or implied.
+ * See the License for the specific language governing permissions and
+ * limitations under the License.
+ */
+
+package bytes
+
+// Verification contracts (comment-only; compiled only with -tags verif, and then to nothing).
+// content(b) is the unread part of the buffer; beN/unN are big-endian encodings of N-bit integers.
+// One-line wrappers around gxbytes.Buffer are "inline": their contract is the assumed contract of
+// the gxbytes.Buffer method they delegate to.
+
+//@ func NewByteBuffer
+//@   inline
+//@ func (*ByteBuffer).Bytes
+//@   inline
+//@ func (*ByteBuffer).Read
+//@   inline
+//@ func (*ByteBuffer).Write
+//@   inline
+//@ func (*ByteBuffer).WriteString
+//@   inline
+//@ func (*ByteBuffer).WriteByte
+//@   inline
+
+//@ func (*ByteBuffer).ReadByte
+//@   prop C12 C13
+//@   requires b != nil && b.buf != nil
+//@   let c := content(b)
+//@   modifies content(b)
+//@   ensures ok: len(c) >= 1 ==> result0 == un8(c[0:1]) && result1 == nil && content(b) == c[1:]
+//@   ensures short: len(c) < 1 ==> result0 == 0 && result1 != nil && content(b) == c
+//@   nopanic
+
+//@ func (*ByteBuffer).ReadUint16
+//@   prop C12 C13
+//@   requires b != nil && b.buf != nil
+//@   let c := content(b)
+//@   modifies content(b)
+//@   ensures ok: len(c) >= 2 ==> result0 == un16(c[0:2]) && result1 == nil && content(b) == c[2:]
+//@   ensures short: len(c) < 2 ==> result0 == 0 && result1 != nil && content(b) == ""
+//@   nopanic
+
+//@ func (*ByteBuffer).ReadUint32
+//@   prop C12 C13
+//@   requires b != nil && b.buf != nil
+//@   let c := content(b)
+//@   modifies content(b)
+//@   ensures ok: len(c) >= 4 ==> result0 == un32(c[0:4]) && result1 == nil && content(b) == c[4:]
+//@   ensures C13/short: len(c) < 4 ==> result0 == 0 && result1 != nil && content(b) == ""
+//@   nopanic
+
+//@ func (*ByteBuffer).ReadUint64
+//@   prop C12 C13
+//@   requires b != nil && b.buf != nil
+//@   let c := content(b)
+//@   modifies content(b)
+//@   ensures ok: len(c) >= 8 ==> result0 == un64(c[0:8]) && result1 == nil && content(b) == c[8:]
+//@   ensures C13/short: len(c) < 8 ==> result0 == 0 && result1 != nil && content(b) == ""
+//@   nopanic
+
+//@ func (*ByteBuffer).WriteUint16
+//@   prop C12
+//@   requires b != nil && b.buf != nil
+//@   modifies content(b)
+//@   ensures post: content(b) == old(content(b)) + be16(p) && result1 == nil
+//@   nopanic
+
+//@ func (*ByteBuffer).WriteUint32
+//@   prop C12
+//@   requires b != nil && b.buf != nil
+//@   modifies content(b)
+//@   ensures post: content(b) == old(content(b)) + be32(p) && result1 == nil
+//@   nopanic
+
+//@ func (*ByteBuffer).WriteUint64
+//@   prop C12
+//@   requires b != nil && b.buf != nil
+//@   modifies content(b)
+//@   ensures post: content(b) == old(content(b)) + be64(p) && result1 == nil
+//@   nopanic
+
+//@ func (*ByteBuffer).WriteInt64
+//@   prop C12
+//@   requires b != nil && b.buf != nil
+//@   modifies content(b)
+//@   ensures post: content(b) == old(content(b)) + be64(p % pow2(64)) && result1 == nil
+//@   nopanic
+
+//@ func UInt16ToBytes
+//@   prop C12
+//@   ensures post: result == be16(v) && result != nil
+//@   nopanic
+//@ func UInt32ToBytes
+//@   prop C12
+//@   ensures post: result == be32(v) && result != nil
+//@   nopanic
+//@ func UInt64ToBytes
+//@   prop C12
+//@   defs be64
+//@   ensures post: result == be64(v) && result != nil
+//@   nopanic
+//@ func Int64ToBytes
+//@   prop C12
+//@   defs be64
+//@   ensures post: result == be64(v % pow2(64)) && result != nil
+//@   nopanic
+//@ func Byte2UInt16
+//@   prop C12
+//@   requires len(data) >= 2
+//@   ensures post: result == un16(data[0:2])
+//@   nopanic
+//@ func Byte2UInt32
+//@   prop C12
+//@   requires len(data) >= 4
+//@   ensures post: result == un32(data[0:4])
+//@   nopanic
+//@ func Byte2UInt64
+//@   prop C12
+//@   defs be64
+//@   requires len(data) >= 8
+//@   ensures post: result == un64(data[0:8])
+//@   nopanic
+
+//@ func ReadByte
+//@   prop C12 C13
+//@   requires buf != nil && buf.buf != nil
+//@   let c := content(buf)
+//@   modifies content(buf)
+//@   ensures ok: len(c) >= 1 ==> result == un8(c[0:1]) && content(buf) == c[1:]
+//@   ensures short: len(c) < 1 ==> result == 0 && content(buf) == c
+//@   nopanic
+
+//@ func ReadUInt16
+//@   prop C12 C13
+//@   requires buf != nil && buf.buf != nil
+//@   let c := content(buf)
+//@   modifies content(buf)
+//@   ensures ok: len(c) >= 2 ==> result == un16(c[0:2]) && content(buf) == c[2:]
+//@   ensures short: len(c) < 2 ==> result == 0 && content(buf) == ""
+//@   nopanic
+
+//@ func ReadUInt32
+//@   prop C12 C13
+//@   requires buf != nil && buf.buf != nil
+//@   let c := content(buf)
+//@   modifies content(buf)
+//@   ensures ok: len(c) >= 4 ==> result == un32(c[0:4]) && content(buf) == c[4:]
+//@   ensures C13/short: len(c) < 4 ==> result == 0 && content(buf) == ""
+//@   nopanic
+
+//@ func ReadUInt64
+//@   prop C12 C13
+//@   requires buf != nil && buf.buf != nil
+//@   let c := content(buf)
+//@   modifies content(buf)
+//@   ensures ok: len(c) >= 8 ==> result == un64(c[0:8]) && content(buf) == c[8:]
+//@   ensures C13/short: len(c) < 8 ==> result == 0 && content(buf) == ""
+//@   nopanic
+
+//@ func ReadString8Length
+//@   prop C12 C13
+//@   requires buf != nil && buf.buf != nil
+//@   let c := content(buf)
+//@   let n := un8(c[0:1])
+//@   modifies content(buf)
+//@   ensures ok: len(c) >= 1 && len(c) - 1 >= n ==> result == c[1:1+n] && content(buf) == c[1+n:]
+//@   ensures suffix: len(content(buf)) <= len(c)
+//@   nopanic
+
+//@ func ReadString16Length
+//@   prop C12 C13
+//@   requires buf != nil && buf.buf != nil
+//@   let c := content(buf)
+//@   let n := un16(c[0:2])
+//@   modifies content(buf)
+//@   ensures ok: len(c) >= 2 && len(c) - 2 >= n ==> result == c[2:2+n] && content(buf) == c[2+n:]
+//@   ensures suffix: len(content(buf)) <= len(c)
+//@   nopanic
+
+//@ func ReadString32Length
+//@   prop C12 C13
+//@   requires buf != nil && buf.buf != nil
+//@   let c := content(buf)
+//@   let n := un32(c[0:4])
+//@   modifies content(buf)
+//@   ensures ok: len(c) >= 4 && len(c) - 4 >= n ==> result == c[4:4+n] && content(buf) == c[4+n:]
+//@   ensures suffix: len(content(buf)) <= len(c)
+//@   nopanic
+
+//@ func WriteString8Length
+//@   prop C12
+//@   requires buf != nil && buf.buf != nil
+//@   modifies content(buf)
+//@   ensures post: content(buf) == old(content(buf)) + b8(len(value) % 256) + value
+//@   nopanic
+
+//@ func WriteString16Length
+//@   prop C12
+//@   requires buf != nil && buf.buf != nil
+//@   modifies content(buf)
+//@   ensures post: content(buf) == old(content(buf)) + be16(len(value) % 65536) + value
+//@   nopanic
+
+//@ func WriteString32Length
+//@   prop C12
+//@   requires buf != nil && buf.buf != nil
+//@   modifies content(buf)
+//@   ensures post: content(buf) == old(content(buf)) + be32(len(value) % pow2(32)) + value
+//@   nopanic
